@@ -171,6 +171,10 @@ def symbol_hash_rule(chk: Check, eng: Engine, rule: str) -> None:
 def run(chk: Check, eng: Engine) -> None:
     chk.rule("R10-f", "the hash of every symbol class carries the symbol kind that Symbol.__eq__ compares (tree identity is the structural hash over hash(symbol))", floor=2)
     symbol_hash_rule(chk, eng, "R10-f")
+    chk.rule("R10-g", "no accessor of a derivation tree (or what it calls) is memoised by a decorator whose key leaves out something it reads "
+             "(tree identity is the structural hash; parents, sources and tags are not part of it)", floor=1)
+    from .common_memo import decorated_memo_rule
+    decorated_memo_rule(chk, eng, "R10-g", [f.fq for f in eng.ix.all_functions if f.cls is not None and f.cls.name in ("DerivationTree", "TreeValue")], "tree bookkeeping")
     chk.rule("R10-e", "positions of nodes in children/sources lists are looked up by reference, never by structural equality (index/remove/in)", floor=2)
     lookup_by_reference(chk, eng, "R10-e")
     chk.rule("R10-a", "read-only accessors (tree accessors, selector searches, containers) have no structure-write effect on borrowed trees", floor=60)
@@ -570,6 +574,7 @@ _MU = "src/fandango/evolution/mutation.py"
 _RB = "src/fandango/constraints/repetition_bounds.py"
 _S = "src/fandango/language/search.py"
 MUTANTS = [
+    M("root-lookup-memoised-by-structure", _T, "    def get_root(self, stop_at_argument_begin: bool = False) -> \"DerivationTree\":\n", "    @functools.lru_cache(maxsize=1024)\n    def get_root(self, stop_at_argument_begin: bool = False) -> \"DerivationTree\":\n", "R10-g"),
     M("nonterminal-hash-without-kind", "src/fandango/language/symbols/non_terminal.py", "        return hash((self._value, self._type))\n", "        return hash(self._value)\n", "R10-f"),
     M("deepcopy-inherits-hash", _T, "        memo[id(self)] = copied\n", "        memo[id(self)] = copied\n        copied.hash_cache = self.hash_cache\n", "R10-c"),
     M("delete-repetitions-adopts-originals", _RB, "        for child in copy_parent.children[::-1]:\n            repetition_node_id = self._repetition_id", "        for child in tree.children[::-1]:\n            repetition_node_id = self._repetition_id", "R10-b"),
